@@ -7,6 +7,7 @@
 -/
 import Ctrmml.Proofs.MdsFile
 import Ctrmml.Properties.C13
+import Ctrmml.Spec.MdsResolve
 namespace Ctrmml.MdsFile
 open Ctrmml Ctrmml.Mds Tables
 
@@ -202,5 +203,139 @@ theorem C09_slot_count {c : Conv} {tl : List (Nat × List MEv)} {vol : Option St
       (ts.flatten ++ (ss.flatten ++ ms.flatten)) ltS k (by simp [lsS, lmS]; omega) (by simp [lsS, lmS]; omega)
     rw [← hHdef, ← hseq', hml] at hds
     exact hds
+
+
+theorem wfL_of_forall : ∀ (ts : List Riff.Tree), (∀ t ∈ ts, t.wf) → Riff.Tree.wfL ts
+  | [], _ => trivial
+  | t :: ts, h => ⟨h t (by simp), wfL_of_forall ts (fun x hx => h x (by simp [hx]))⟩
+
+/-- `mds_shape`: the exported bytes are the serialisation of the tree
+RIFF `MDS0` [ `ver ` (table version), `grp `, `seq `, LIST `dblk` (one `glob`/`pcmh` child per used
+data item), `pcmd` ], and (for a file below 4 GiB) the reader-side walker gives that tree back. -/
+theorem C09_mds_shape {b : Built} {bank : List (List Nat)} {group pcm f : Bytes}
+    (h : getMds b bank group pcm = .ok f) :
+    ∃ ts : List Riff.Tree, ts.length = b.conv.usedData.length ∧
+      (∀ t ∈ ts, ∃ p, t = .chunk mdsFile_glob p ∨ t = .chunk mdsFile_pcmh p) ∧
+      Riff.serialize (mdsTree (toU8 b.seq) group pcm ts) = .ok f ∧
+      ((mdsTree (toU8 b.seq) group pcm ts).small → Riff.walkTop f = .ok (mdsTree (toU8 b.seq) group pcm ts)) := by
+  obtain ⟨ts, _, hlen, hk, hser⟩ := getMds_serialize h
+  refine ⟨ts, hlen, hk, hser, ?_⟩
+  intro hsmall
+  have hwf : (mdsTree (toU8 b.seq) group pcm ts).wf := by
+    have hts : Riff.Tree.wfL ts := by
+      apply wfL_of_forall
+      intro t ht
+      obtain ⟨p, hp | hp⟩ := hk t ht <;> subst hp <;> exact ⟨by decide, by decide⟩
+    exact ⟨by decide, by decide, ⟨by decide, by decide⟩, ⟨by decide, by decide⟩, ⟨by decide, by decide⟩,
+      ⟨by decide, by decide, hts⟩, ⟨by decide, by decide⟩, trivial⟩
+  obtain ⟨f', hf', hw⟩ := Riff.C13_walk_serialize _ hwf hsmall
+  rw [hser] at hf'
+  cases hf'
+  exact hw
+
+/-- `index_fits_byte`: when the export succeeds, every subroutine / macro-track / data index that
+`convert_track` writes into a channel or subroutine stream is at most 255, so the operand byte IS
+the index (otherwise `index_byte` throws and nothing is exported — D19, fixed). -/
+theorem C09_index_fits_byte {c : Conv} {tl : List (Nat × List MEv)} {vol : Option String} {b : Built}
+    (h : assemble c tl vol = .ok b) :
+    ∀ evs ∈ tl.map (·.2) ++ c.subList, ∀ ev ∈ evs,
+      (ev.type = mds_PAT → ev.arg % 256 = ev.arg) ∧
+      (ev.type = mds_INS ∨ ev.type = mds_PCM →
+        (c.subList.length + c.macroList.length + ev.arg) % 256 = c.subList.length + c.macroList.length + ev.arg) ∧
+      (ev.type = mds_PEG → ev.arg ≠ 0 →
+        (c.subList.length + c.macroList.length + ev.arg) % 256 = c.subList.length + c.macroList.length + ev.arg) ∧
+      (ev.type = mds_MTAB → ev.arg ≠ 0 → (ev.arg + c.subList.length) % 256 = ev.arg + c.subList.length) := by
+  obtain ⟨ts, ss, ms, hts, hss, _, _, _, _, _, _, _, _⟩ := assemble_ok h
+  intro evs hevs ev hev
+  have hall : evs.all (idxFits c.subList.length c.macroList.length) = true := by
+    rcases List.mem_append.mp hevs with h1 | h1
+    · exact encodeStreams_fits _ _ hts evs h1
+    · exact encodeStreams_fits _ _ hss evs h1
+  have hfit := List.all_eq_true.mp hall ev hev
+  unfold idxFits at hfit
+  have hmax : mdsFile_indexMax = 255 := rfl
+  have e1 : mds_MTAB = 235 := rfl
+  have e2 : mds_INS = 225 := rfl
+  have e3 : mds_PCM = 240 := rfl
+  have e4 : mds_PEG = 232 := rfl
+  have e5 : mds_PAT = 254 := rfl
+  refine ⟨?_, ?_, ?_, ?_⟩
+  · intro ht
+    simp [ht, e1, e2, e3, e4, e5, hmax] at hfit
+    omega
+  · intro ht
+    rcases ht with ht | ht <;> simp [ht, e1, e2, e3, e4, e5, hmax] at hfit <;> omega
+  · intro ht hne
+    simp [ht, e1, e2, e3, e4, e5, hmax, hne] at hfit
+    omega
+  · intro ht hne
+    simp [ht, e1, e2, e3, e4, e5, hmax, hne] at hfit
+    omega
+
+/-- D19 as it was: the codec alone truncates the 257th subroutine index to 0 (`fe 00`); the
+check added by the fix rejects it. -/
+theorem C09_d19_counterexample_before_fix :
+    (convertTrack 300 0 [⟨mds_PAT, 256⟩]).toOption = some [mds_PAT, 0] ∧
+    (match convertTrackChk 300 0 [⟨mds_PAT, 256⟩] with | .error .indexRange => true | _ => false) = true := by
+  constructor
+  · decide
+  · decide
+
+/-- `ids_injective` (partial): no two `dblk` entries share a slot id, GIVEN that `used_data_map`
+numbers its keys 0,1,2,… (`UsedOk`, which `get_envelope` — the only writer of the map — keeps:
+`usedOk_getEnvelope`; carrying it through the mutually recursive writer is not proved). -/
+theorem C09_ids_injective_partial (c : Conv) (hu : UsedOk c.usedData)
+    (hs : c.subList.length + c.macroList.length + c.usedData.length ≤ 2147483648) :
+    ((usedSorted c).map fun p => entryId c.subList.length c.macroList.length p.1 p.2 % 2147483648).Nodup := by
+  have hperm : (usedSorted c).Perm c.usedData := List.mergeSort_perm _ _
+  have hvals : ((usedSorted c).map (·.2)).Nodup := (hperm.map _).nodup_iff.mpr (usedOk_nodup hu)
+  have hbound : ∀ p ∈ usedSorted c, p.2 < c.usedData.length := by
+    intro p hp
+    have hp' : p ∈ c.usedData := hperm.mem_iff.mp hp
+    have : p.2 ∈ c.usedData.map (·.2) := List.mem_map.mpr ⟨p, hp', rfl⟩
+    rw [hu] at this
+    exact List.mem_range.mp this
+  have hpw : (usedSorted c).Pairwise (fun p q => p.2 ≠ q.2) := List.pairwise_map.mp hvals
+  have hpw' := List.Pairwise.and_mem.mp hpw
+  apply List.pairwise_map.mpr
+  refine hpw'.imp ?_
+  intro p q ⟨hp, hq, hne⟩
+  have h1 := hbound p hp
+  have h2 := hbound q hq
+  unfold entryId
+  have : mdsFile_extIdBit = 2147483648 := rfl
+  rw [this]
+  split <;> split <;> omega
+
+example : UsedOk ({ usedData := [(1, 0), (65538, 1), (3, 2)] } : Conv).usedData := by unfold UsedOk; decide
+
+/-! ### non-vacuity: a conversion state with one subroutine, one data item and one channel track
+assembles, and the container is produced -/
+def exConv : Conv := { subList := [[⟨mds_FINISH, 0⟩]], subMap := [(400, 0)], usedData := [(1, 0)] }
+def exTl : List (Nat × List MEv) := [(0, [⟨mds_PAT, 0⟩, ⟨mds_INS, 0⟩, ⟨mds_NOTE + 36, 24⟩, ⟨mds_FINISH, 0⟩])]
+
+example : ((assemble exConv exTl (some "5")).toOption.map (·.seq)) =
+    some [0, 8, 5, 1, 0, 0, 0, 4, 0, 11, 0, 0, 254, 0, 225, 1, 166, 23, 255, 255] := by decide
+
+example : ∃ f, getMds ⟨{}, [], [], [], [], [0, 4, 0, 0]⟩ [] [] [] = .ok f := by
+  simp [getMds, usedSorted, addEntries, liftRiff, Riff.addChunk, Riff.mk3, Riff.mk2, Riff.isList, Riff.TYPE_RIFF,
+    Riff.TYPE_LIST, bind, Except.bind, pure, Except.pure]
+
+/-- The full statement of the two remaining clauses (decided per case by `Spec/MdsResolve.checkFile`
+on the real file, not proved): for every successful export, the reader-side check — every
+INS/PCM/PEG/MTAB/PAT/drum-note operand of every reachable stream resolves to exactly one entry
+holding what the song named, no slot is unused, ids are injective, streams lie back to back —
+accepts the file. -/
+def C09_full_statement : Prop :=
+  ∀ (inp : Input) (o : Output), exportMds MdsData.Arith.float inp = .ok o →
+    ∀ d, readSong MdsData.Arith.float inp.files inp.tags = .ok d →
+      MdsResolve.checkFile o.file inp.song
+        { ins := d.st.tyMap.filterMap fun (id, ty) =>
+            match MdsData.mget d.st.envMap id with
+            | some idx => (d.st.bank[idx.toNat]?).map fun b => (keyOfId id, decide (ty = (mdsdrv_INS_PCM : Int)), b)
+            | none => none,
+          pitch := d.st.pitchMap.filterMap fun (id, idx) =>
+            (d.st.bank[idx.toNat]?).map fun b => (keyOfId id, d.st.pitchExt.contains id, b) }
+        none (inp.group.toUTF8.toList.map (·.toNat)) = .ok ()
 
 end Ctrmml.MdsFile
